@@ -5,11 +5,11 @@ CONSTANTS
   GPUs = {1, 2}
   PageDev <- MCPageDev2
   PhysPage <- MCPhys
-  Bufs <- MCBufs2
-  Ctxs = {1, 2}
-  Queues = {1}
-  Ranges <- MCRanges
-  KWrites <- MCKWrites
+  Bufs <- MCBufs1
+  Ctxs = {1}
+  Queues = {1, 2}
+  Ranges <- MCRangesK
+  KWrites <- MCKWritesK
   MaxCmds = 5
   Contract = TRUE
   Deviations = {}
